@@ -217,6 +217,9 @@ AfterNameOK(c, r) ==
             Len(c.rd) = Len(r.rd) /\ \A j \in (k + 1) .. Len(r.rd) : c.rd[j] = r.rd[j]
 AfterNameAll(cs, rs) == Len(cs) = Len(rs) => \A i \in 1 .. Len(rs) : AfterNameOK(cs[i], rs[i])
 
+NameWhyBase == {"truncated", "pointer-outside", "cycle", "reserved-label-type", "label-too-long", "name-too-long"}
+NameWhys == {sec \o mid \o w : sec \in {"qd:", "an:", "ns:", "ar:"}, mid \in {"name:", "rdata:name:"}, w \in NameWhyBase}
+
 TraceParse ==
   /\ Ev.ev = "Parse"
   /\ LET b == Ev.b
@@ -226,6 +229,10 @@ TraceParse ==
      /\ Rule(l, "NoHang", out[1] # "hang" /\ Ev.steps <= StepBound(Len(b)), <<"steps", Ev.steps, "len", Len(b), out[1]>>)
      /\ Rule(l, "HeapBound", Ev.peak <= HeapBoundOf(Len(b)), <<"peak", Ev.peak, "len", Len(b)>>)
      /\ Rule(l, "EnvelopeErr", (~ref.ok) => out[1] = "err", <<"ref", ref.why, "got", out[1]>>)
+     \* C06 at the level of the enclosing message: a name the RFC decoder refuses (cycle, pointer outside the
+     \* message, reserved label type, over-long, cut short) makes the message an error -- it is never skipped
+     /\ Rule(l, "NameMustErr", (~ref.ok /\ ref.why \in NameWhys) => out[1] = "err",
+             <<"message-with-invalid-name-accepted", ref.why, "got", out[1]>>)
      /\ Rule(l, "ParseEqRef", out[1] = "ok" => (ref.ok /\ out[2] = ref.pkt),
              <<"ref", IF ref.ok THEN PktDiff(out[2], ref.pkt) ELSE ref.why>>)
      /\ Rule(l, "MustAccept",
